@@ -244,6 +244,98 @@ theorem changed_iff (tail : Nat) (cl : CL) (h : WF cl) :
     | true => rfl
     | false => exact absurd (snapshot_unchanged_contents tail cl h hc).2 hne
 
+/-! ### --tail over a whole history: what stays searchable -/
+
+/-- Items pushed by a history. -/
+def pushedBy : List Op → List Int
+  | [] => []
+  | .push i :: ops => i :: pushedBy ops
+  | .snap _ :: ops => pushedBy ops
+
+theorem pushedBy_append (a b : List Op) : pushedBy (a ++ b) = pushedBy a ++ pushedBy b := by
+  induction a with
+  | nil => rfl
+  | cons op a ih => cases op <;> simp [pushedBy, ih]
+
+theorem lastN_length (n : Nat) (l : List α) : (lastN n l).length = min n l.length := by
+  simp [lastN]; omega
+
+theorem lastN_suffix (n : Nat) (l : List α) : lastN n l <:+ l := List.drop_suffix _ _
+
+theorem lastN_of_suffix {l p : List α} (n : Nat) (h : l <:+ p) (hn : n ≤ l.length) : lastN n l = lastN n p := by
+  obtain ⟨pre, rfl⟩ := h
+  unfold lastN
+  rw [List.length_append]
+  have : pre.length + l.length - n = pre.length + (l.length - n) := by omega
+  rw [this, List.drop_length_add_append]
+
+theorem lastN_all (n : Nat) (l : List α) (h : l.length ≤ n) : lastN n l = l := by
+  unfold lastN; rw [Nat.sub_eq_zero_of_le h]; rfl
+
+/-- What the list holds along a history whose snapshots all trim to `tail`: a suffix of what was
+    pushed, and at least the last `tail` of it (or everything). -/
+def TailInv (tail : Nat) (cl : CL) (P : List Int) : Prop :=
+  contents cl cl.ids <:+ P ∧ (tail ≤ (contents cl cl.ids).length ∨ contents cl cl.ids = P)
+
+def snapsWith (tail : Nat) : List Op → Prop
+  | [] => True
+  | .push _ :: ops => snapsWith tail ops
+  | .snap t :: ops => t = tail ∧ snapsWith tail ops
+
+theorem tailInv_steps (cz tail : Nat) (ht : 0 < tail) (ops : List Op) (hs : snapsWith tail ops) (cl : CL) (P : List Int)
+    (hw : WF cl) (h : TailInv tail cl P) :
+    TailInv tail (ops.foldl (step cz) cl) (P ++ pushedBy ops) := by
+  induction ops generalizing cl P with
+  | nil => simpa [pushedBy] using h
+  | cons op ops ih =>
+    cases op with
+    | push i =>
+      rw [List.foldl_cons]
+      have := ih hs (step cz cl (.push i)) (P ++ [i]) (step_wf cz cl _ hw) (by
+        simp only [step]
+        unfold TailInv
+        rw [push_contents cz cl i hw]
+        obtain ⟨h1, h2⟩ := h
+        refine ⟨?_, ?_⟩
+        · obtain ⟨pre, hp⟩ := h1
+          exact ⟨pre, by rw [← hp, List.append_assoc]⟩
+        · rcases h2 with h2 | h2
+          · left; simp; omega
+          · right; rw [h2])
+      simpa [pushedBy, List.append_assoc] using this
+    | snap t =>
+      obtain ⟨ht', hs'⟩ := hs
+      subst ht'
+      rw [List.foldl_cons]
+      have := ih hs' (step cz cl (.snap t)) P (step_wf cz cl _ hw) (by
+        simp only [step]
+        unfold TailInv
+        rw [(snapshot_tail_contents t cl hw ht).2]
+        obtain ⟨h1, h2⟩ := h
+        refine ⟨(lastN_suffix _ _).trans h1, ?_⟩
+        rcases h2 with h2 | h2
+        · left; rw [lastN_length]; omega
+        · by_cases hl : t ≤ (contents cl cl.ids).length
+          · left; rw [lastN_length]; omega
+          · right; rw [lastN_all _ _ (by omega)]; exact h2)
+      simpa [pushedBy] using this
+
+/-- **--tail N keeps exactly the last N records.** After any history of pushes and snapshots
+    (every snapshot trimming to `tail`), the snapshot taken next shows exactly the last `tail`
+    items pushed since the start, in order — all of them when fewer were pushed. -/
+theorem tail_snapshot_is_last_pushed (cz tail : Nat) (ht : 0 < tail) (ops : List Op) (hs : snapsWith tail ops) :
+    let cl := ops.foldl (step cz) ⟨[], []⟩
+    contents (snapshot tail cl).1 (snapshot tail cl).2 = lastN tail (pushedBy ops) := by
+  intro cl
+  have hw : WF cl := steps_wf cz ops _ wf_empty
+  have hinv := tailInv_steps cz tail ht ops hs ⟨[], []⟩ [] wf_empty (by simp [TailInv, contents])
+  simp only [List.nil_append] at hinv
+  rw [(snapshot_tail_contents tail cl hw ht).1]
+  obtain ⟨h1, h2⟩ := hinv
+  rcases h2 with h2 | h2
+  · exact lastN_of_suffix tail h1 h2
+  · rw [h2]
+
 /-! ### Snapshots and revisions
 
 The coordinator (src/core.go) bumps the minor revision whenever `Snapshot` reports `changed`.
